@@ -20,7 +20,8 @@ func init() {
 			"one of them is overwritten and lost and bytes already written are written again - recorded as a known finding (D11), keyed by the read family's call site; " +
 			"(R2) linear completion - every callback-taking function of Stream, CodecConn and ByteBuffer (AsyncNextFrame/-Message, AsyncWrite/-Frame, AsyncFlush, AsyncClose, " +
 			"AsyncHandshake, AsyncReadNext/-WriteNext, AsyncReadFrom/-WriteTo and their helpers/closures) discharges its callback exactly once on every terminating path, " +
-			"through all implementations of the transport interfaces; (R3) the completion of a transport write releases the frame and continues the flush only on success. " +
+			"through all implementations of the transport interfaces; (R3) the completion of a transport write releases the frame and continues the flush only on success; " +
+			"(R4) buffer sides - the encode/write paths of the frame codecs and of CodecConn call no ByteBuffer method on the read buffer (a Reserve there moves the storage a parked read writes into), the decode/read paths none on the write buffer. " +
 			"Not decided: interleavings relative to poll cycles (schedules).",
 		Run: runC17,
 	})
